@@ -35,7 +35,7 @@ DEVS = [
     {"dev": {"k": "withhold_consistent"}, "need_disclosed": 2},
     {"dev": {"k": "extra_consistent"}},
 ]
-SHAPES = [dict(n_creds=1, n_claims=5), dict(n_creds=1, comm=True, n_claims=5), dict(n_creds=2, eq=True, n_claims=5), dict(n_creds=1, n_claims=3)]
+SHAPES = [dict(n_creds=1, n_claims=5), dict(n_creds=1, comm=True, n_claims=5), dict(n_creds=2, eq=True, n_claims=5), dict(n_creds=1, n_claims=3), dict(n_creds=1, n_claims=4, disclosed=[])]
 
 
 def explore(ctx):
